@@ -16,7 +16,11 @@ ENGINE_TXT = ("Engine theorems (NR.Props.EngineThms, generic in the cached value
               "checks): a completing propagation pass establishes cache = forward propagation and every check on what "
               "it walked; every operation (insert / remove / vehicle un-plan = replace a route suffix, propagate, roll "
               "back on violation) preserves the solution invariant over arbitrary histories and any number of "
-              "vehicles; a rejected operation leaves routes, cached values of all planned stops and the score unchanged. ")
+              "vehicles; a rejected operation leaves routes, cached values of all planned stops and the score unchanged. "
+              "Array level (NR.Props.LinksThms over NR.Links, a transcription of attach / detach and of the move's attach "
+              "loop): the next / previous / in-vehicle arrays always represent the route lists, a move's attach produces "
+              "exactly the route the hypothetical-route iterator yields, and the rollback of a rejected Execute restores "
+              "the arrays exactly; tied by the `links` lines (arrays before/after every Execute and un-plan). ")
 
 PROPS = {
     "C01": {
@@ -65,7 +69,7 @@ PROPS = {
             "technique": "Lean 4 proof (partial + counterexample theorems) + Spec oracle on the real code's observations",
             "design_ref": "DESIGN.md §5 C03",
         },
-        "lean_props": ["C03", "C08", "C10", "EngineThms"],
+        "lean_props": ["C03", "C08", "C10", "EngineThms", "LinksThms"],
         "streams": [SOL, HIST, HISTUC],
     },
     "C04": {
@@ -81,7 +85,7 @@ PROPS = {
             "technique": "Lean 4 proof (cache consistency invariant over histories) + independent schedule oracle on the real code's observations",
             "design_ref": "DESIGN.md §5 C04",
         },
-        "lean_props": ["C04", "EngineThms"],
+        "lean_props": ["C04", "EngineThms", "LinksThms"],
         "streams": [SOL, HIST, HISTUC],
     },
     "C05": {
@@ -131,7 +135,7 @@ PROPS = {
             "technique": "Lean 4 proof (rollback theorem, partial + counterexample) + before/after snapshot differential on the real code",
             "design_ref": "DESIGN.md §5 C07",
         },
-        "lean_props": ["C07", "C08", "EngineThms"],
+        "lean_props": ["C07", "C08", "EngineThms", "LinksThms"],
         "streams": [HIST, HISTUC],
     },
     "C08": {
